@@ -323,12 +323,44 @@ static void v_alarm_handler(int sig) {
     _exit(98);
 }
 
+/* Watchdog without two syscalls per item: a 1 Hz interval timer; the handler kills the worker when the
+ * same item has been "current" for timeout_s consecutive ticks. */
+static volatile uint64_t v_wd_last_item;
+static volatile int v_wd_same_ticks, v_wd_limit;
+static void v_watchdog_tick(int sig) {
+    (void)sig;
+    struct v_slot *s = &v_sh->slot[v_worker];
+    if (!s->in_item) {
+        v_wd_same_ticks = 0;
+        return;
+    }
+    if (s->cur == v_wd_last_item) {
+        if (++v_wd_same_ticks >= v_wd_limit) _exit(98);
+    } else {
+        v_wd_last_item = s->cur;
+        v_wd_same_ticks = 0;
+    }
+}
+static void v_watchdog_start(int timeout_s) {
+    v_wd_limit = timeout_s + 1;
+    v_wd_same_ticks = 0;
+    v_wd_last_item = UINT64_MAX;
+    struct sigaction sa;
+    memset(&sa, 0, sizeof(sa));
+    sa.sa_handler = v_watchdog_tick;
+    sa.sa_flags = SA_RESTART;
+    sigaction(SIGALRM, &sa, NULL);
+    struct itimerval it = {{1, 0}, {1, 0}};
+    setitimer(ITIMER_REAL, &it, NULL);
+}
+
 static void v_worker_loop(int w, int nw, uint64_t start, uint64_t total, v_item_fn fn, void *ctx, int timeout_s) {
     v_worker = w;
     struct v_slot *s = &v_sh->slot[w];
-    signal(SIGALRM, v_alarm_handler);
+    v_watchdog_start(timeout_s);
+    uint64_t cnt = 0;
     for (uint64_t i = start; i < total; i += (uint64_t)nw) {
-        if ((i & 0xff) == 0 && v_past_deadline()) {
+        if ((cnt++ & 0xff) == 0 && v_past_deadline()) {
             s->next = i;
             _exit(97);
         }
@@ -337,9 +369,7 @@ static void v_worker_loop(int w, int nw, uint64_t start, uint64_t total, v_item_
         s->crumb[0] = 0;
         s->report[0] = 0;
         s->in_item = 1;
-        alarm((unsigned)timeout_s);
         fn(i, ctx);
-        alarm(0);
         s->in_item = 0;
     }
     s->done = 1;
